@@ -70,6 +70,14 @@ package common
 // keys' indexes untouched.
 //@ ghost func (rim *RollingIndexMap) wf() bool { return rim.mapping != nil && rim.size >= 2 && rim.size < 4611686018427387904 && (forall k uint32 :: __in(k, rim.mapping) ==> rim.mapping[k] != nil && __allocated(rim.mapping[k]) && rim.mapping[k].wf() && rim.mapping[k].size == rim.size) && (forall k uint32, j uint32 :: __in(k, rim.mapping) && __in(j, rim.mapping) && k != j ==> rim.mapping[k] != rim.mapping[j]) }
 
+// exported views for contracts of other packages
+//@ ghost func (rim *RollingIndexMap) WF() bool { return rim.wf() }
+//@ ghost func (rim *RollingIndexMap) Has(k uint32) bool { return __in(k, rim.mapping) }
+//@ ghost func (rim *RollingIndexMap) At(k uint32) *RollingIndex { return rim.mapping[k] }
+//@ ghost func (r *RollingIndex) Last() int { return r.lastIndex }
+//@ ghost func (r *RollingIndex) Oldest() int { return r.oldest() }
+//@ ghost func (r *RollingIndex) Items() []interface{} { return r.items }
+
 //@ func (rim *RollingIndexMap) AddKey(key uint32) error
 //@   requires rim != nil && rim.wf()
 //@   modifies rim.keys, rim.mapping[*]
